@@ -129,9 +129,6 @@ impl Step {
             _ => return None,
         })
     }
-    pub fn is_fault(&self) -> bool {
-        matches!(self, Step::Round(a, b) if *a != Fate::Deliver || *b != Fate::Deliver)
-    }
 }
 
 #[derive(Clone, PartialEq, Debug)]
